@@ -463,9 +463,52 @@ def _sugar_chunk(args):
     return n, [v for vs in out for v in vs]
 
 
+# ------------------------------------------------------------------ many links from one source
+def many_links():
+    """One source linked to MORE than 16 targets one by one (a MultiCtl, which has 16 mapping slots, and a plain module),
+    with links freed in between: whatever a request's outcome -- accepted or refused with any error -- the tables of both
+    ends agree afterwards (I1-I4), and an accepted request is recorded on both ends."""
+    import rv.api as rv
+
+    vs, n = [], 0
+    for src_type in ("MultiCtl", "Amplifier"):
+        for free_first in (False, True):
+            p = rv.Project()
+            src = p.new_module(getattr(rv.m, src_type))
+            amps = [p.new_module(rv.m.Amplifier) for _ in range(20)]
+            case = {"many_links": [src_type, free_first]}
+            for k, a in enumerate(amps):
+                n += 1
+                if free_first and k == 5:
+                    for b in amps[:3]:
+                        try:
+                            src >> ~b
+                        except Exception:
+                            pass
+                try:
+                    src >> a
+                    outcome = "ok"
+                except Exception as e:
+                    outcome = "raise:" + type(e).__name__
+                inv = link_invariants(p)
+                if inv:
+                    v = inv[0]
+                    v["key"] = dict(v["key"], source=src_type, step=k + 1, outcome=outcome.split(":")[0])
+                    v["case"] = case
+                    vs.append(v)
+                    break
+                linked = a.index in [t for t in src.out_links if t >= 0] and src.index in [s_ for s_ in a.in_links if s_ >= 0]
+                if outcome == "ok" and not linked:
+                    vs.append({"subcheck": "accepted-link-not-recorded", "key": {"source": src_type, "step": k + 1}, "detail": {}, "case": case})
+                    break
+    return n, vs
+
+
 # ------------------------------------------------------------------ run / replay
 def run_case(case):
     """Replay one history on fresh objects; oracles evaluated after every step."""
+    if "many_links" in case:
+        return [v for v in many_links()[1] if v["case"] == case]
     hist = case["history"]
     sysm = LinkSystem(hist, case.get("holes", (0, 0, 0)))
     L = sysm.fresh()
@@ -519,6 +562,8 @@ def run(ctx):
     n_sugar = sum(n for n, _ in sres)
     for _n, vs in sres:
         ctx.add(vs)
+    n_many, v_many = many_links()
+    ctx.add(v_many)
     distinct_outcomes = dict(r2.outcomes)
     for k, v in r1.outcomes.items():
         distinct_outcomes[k] = distinct_outcomes.get(k, 0) + v
@@ -537,6 +582,7 @@ def run(ctx):
                           "transitions": r2.transitions, "states_per_level": r2.levels,
                           "new_states_replay_verified": r2.replay_verified},
         "sugar_differential": {"ops": len(sugar), "from_states": len(base), "executions": n_sugar},
+        "requests_with_more_than_16_targets_of_one_source": n_many,
         "outcomes": distinct_outcomes,
         "capped": r1.capped or r2.capped,
         "samples": [
